@@ -18,6 +18,10 @@ Definition tok_ok (t : token) : Prop :=
   (tkind t <> T_ILLEGAL -> tpos t = P (tstart t) /\ 0 <= tstart t <= len) /\
   (tkind t = T_ILLEGAL -> tover t = false -> exists k, 0 <= k <= len /\ tpos t = P k).
 
+(* the token is a NUMBER and right after its text the source has e/E, an optional sign, CR or LF *)
+Definition cause (t : token) : Prop :=
+  tkind t = T_NUMBER /\ dangling_eol src (tstart t + zlen (tval t)).
+
 Definition scan_post (l0 : lexer) (r : token * lexer) : Prop :=
   Inv (snd r) /\ tbad (fst r) = xl l0 /\ tok_ok (fst r) /\
   (is_final (fst r) = false -> NormInv (snd r) /\ offset l0 < offset (snd r)) /\
@@ -25,7 +29,8 @@ Definition scan_post (l0 : lexer) (r : token * lexer) : Prop :=
      lpos (snd r) = col_add (tpos (fst r)) 1 /\ offset (snd r) = tstart (fst r) + 2) /\
   (xl l0 = false -> tkind (fst r) = T_DIV_ASSIGN ->
      lpos (snd r) = col_add (tpos (fst r)) 2 /\ offset (snd r) = tstart (fst r) + 3) /\
-  (xl l0 = true -> xl (snd r) = true).
+  (xl l0 = true -> xl (snd r) = true) /\
+  (xl (snd r) = true -> xl l0 = true \/ cause (fst r)).
 
 Lemma choice_spec l0 l c one two :
   NormInv l -> Rel l0 l -> c <> 0 ->
@@ -125,6 +130,7 @@ Proof.
   - intros _ H; vm_compute in H; discriminate H.
   - intros _ H; vm_compute in H; discriminate H.
   - congruence.
+  - intros; left; congruence.
 Qed.
 
 Lemma tok_at_ok lc l0 kind val l' :
@@ -150,14 +156,16 @@ Proof.
   - intros _ H; vm_compute in H; discriminate H.
   - intros _ H; vm_compute in H; discriminate H.
   - cbn [snd tok_at]. congruence.
+  - cbn [snd tok_at]. intros; left; congruence.
 Qed.
 
 Lemma post_tok lc l0 l' kind val :
   NormInv lc -> Rel l0 lc -> NormInv l' -> offset lc < offset l' ->
   kind <> T_DIV -> kind <> T_DIV_ASSIGN -> (xl l0 = true -> xl l' = true) ->
+  (xl l' = true -> xl l0 = true \/ cause (fst (tok_at lc l0 kind val l'))) ->
   scan_post l0 (tok_at lc l0 kind val l').
 Proof.
-  intros Hn (Hx & Ho) Hn' Ho' Hk1 Hk2 Hmono. unfold scan_post. splits.
+  intros Hn (Hx & Ho) Hn' Ho' Hk1 Hk2 Hmono Hexpl. unfold scan_post. splits.
   - apply NormInv_Inv; exact Hn'.
   - reflexivity.
   - apply tok_at_ok; assumption.
@@ -165,6 +173,7 @@ Proof.
   - intros _ H. cbn [fst tok_at tkind] in H. contradiction.
   - intros _ H. cbn [fst tok_at tkind] in H. contradiction.
   - exact Hmono.
+  - exact Hexpl.
 Qed.
 
 Lemma plain_kind_neq t : plain_kind t = true -> t <> T_EOF /\ t <> T_DIV /\ t <> T_DIV_ASSIGN.
@@ -173,6 +182,12 @@ Proof. unfold plain_kind. lia. Qed.
 Lemma slice_ok {A} (s : list A) lo hi : 0 <= lo <= hi -> hi <= zlen s -> exists r, slice s lo hi = Ok r.
 Proof.
   intros H1 H2. unfold slice. replace ((0 <=? lo) && (lo <=? hi) && (hi <=? zlen s)) with true by lia. eauto.
+Qed.
+
+Lemma slice_len {A} (s : list A) lo hi r : slice s lo hi = Ok r -> zlen r = hi - lo.
+Proof.
+  unfold slice. destruct ((0 <=? lo) && (lo <=? hi) && (hi <=? zlen s)) eqn:E; [|discriminate].
+  intros H; injection H as <-. rewrite zlen_ztake; [reflexivity|]. rewrite zlen_zdrop; lia.
 Qed.
 
 Lemma NormInv_bounds l : NormInv l -> 1 <= offset l <= len + 1.
@@ -218,11 +233,12 @@ Proof.
     destruct (slice_ok src (offset l1 - 2) (offset l2 - 1)) as (name & Es); [lia|lia|].
     rewrite Es. cbn [of_res lbind].
     destruct (keyword_token name =? T_ILLEGAL) eqn:Ek.
-    - apply okr_ret. apply post_tok; try assumption; try lia; try tkneq; try (destruct Hr2; congruence); try (destruct Hr3; congruence).
+    - apply okr_ret. apply post_tok; try assumption; try lia; try tkneq; try (destruct Hr2; congruence); try (destruct Hr3; congruence);
+      try (intros; left; destruct Hr2; congruence); try (intros; left; destruct Hr3; congruence).
     - apply okr_ret.
       assert (Hk : keyword_token name <> T_ILLEGAL) by lia.
       pose proof (plain_kind_neq _ (keyword_token_plain name Hk)) as (_ & ? & ?).
-      apply post_tok; try assumption; try lia. destruct Hr2; congruence. }
+      apply post_tok; try assumption; try lia; try (destruct Hr2; congruence). intros; left; destruct Hr2; congruence. }
   destruct (is_digit (ch l) || (ch l =? 46)) eqn:Enum.
   { (* numbers *)
     eapply okr_bind with (Q1 := fun gl => NormInv (snd gl) /\ Rel l0 (snd gl) /\ offset l1 <= offset (snd gl)).
@@ -241,15 +257,20 @@ Proof.
     intros (got, l3) (Hn3 & Hr3 & Ho3 & _). cbn [fst snd] in *. pose proof Hr3 as (Hx3 & Hle3).
     destruct (negb got).
     { apply okr_ret. apply post_illegal; [apply NormInv_Inv; assumption|assumption]. }
-    eapply okr_bind with (Q1 := fun l4 => NormInv l4 /\ offset l3 <= offset l4 /\ (xl l3 = true -> xl l4 = true)).
+    eapply okr_bind with (Q1 := fun l4 => NormInv l4 /\ offset l3 <= offset l4 /\ (xl l3 = true -> xl l4 = true) /\
+       (xl l4 = true -> xl l3 = true \/ (offset l4 = offset l3 /\ dangling_eol src (offset l3 - 1)))).
     { destruct ((ch l3 =? 101) || (ch l3 =? 69)) eqn:Ee.
       - eapply okr_weaken; [apply (scan_exponent_spec src fuel l3 Hn3); lia|].
-        intros l4 (? & ? & ?). splits; assumption.
-      - apply okr_ret. splits; [assumption|lia|auto]. }
-    intros l4 (Hn4 & Ho4 & Hm4). pose proof (NormInv_bounds _ Hn4) as Hb4.
+        intros l4 (? & ? & ? & ?). splits; assumption.
+      - apply okr_ret. splits; [assumption|lia|auto|auto]. }
+    intros l4 (Hn4 & Ho4 & Hm4 & He4). pose proof (NormInv_bounds _ Hn4) as Hb4.
     destruct (slice_ok src (offset l1 - 2) (offset l4 - 1)) as (v & Es); [lia|lia|].
+    pose proof (slice_len _ _ _ _ Es) as Hvl.
     rewrite Es. cbn [of_res lbind].
-    apply okr_ret. apply post_tok; try assumption; try lia; try tkneq; try (destruct Hr2; congruence); try (destruct Hr3; congruence). }
+    apply okr_ret. apply post_tok; try assumption; try lia; try tkneq.
+    intros Hx4. destruct (He4 Hx4) as [Hx3t|(Eo & Hd)]; [left; congruence|right].
+    unfold cause. cbn [fst tok_at tkind tstart tval]. split; [reflexivity|].
+    replace (Z.max 0 (offset l - 1) + zlen v) with (offset l3 - 1) by lia. exact Hd. }
   destruct ((ch l =? 34) || (ch l =? 39)) eqn:Estr.
   { (* strings *)
     eapply okr_bind; [apply (parse_string_spec src fuel (ch l) [] l1 l1 (NormInv_Inv _ _ Hn1) (Rel_refl l1)); lia|].
@@ -262,7 +283,8 @@ Proof.
     pose proof (Inv_nonzero_NormInv src l2 Hi2 Hnz2) as Hn2. pose proof Hr2 as (Hx2 & Hle2).
     eapply okr_bind; [apply (nextN src l0 l2 Hn2 Hr2 Hnz2)|].
     intros l3 (Hn3 & Hr3 & Ho3 & _).
-    apply okr_ret. apply post_tok; try assumption; try lia; try tkneq; try (destruct Hr2; congruence); try (destruct Hr3; congruence). }
+    apply okr_ret. apply post_tok; try assumption; try lia; try tkneq; try (destruct Hr2; congruence); try (destruct Hr3; congruence);
+      try (intros; left; destruct Hr2; congruence); try (intros; left; destruct Hr3; congruence). }
   destruct (ch l =? 38) eqn:Eamp.
   { (* '&' *)
     eapply okr_bind; [apply (choice_spec l0 l1 38 T_ILLEGAL T_AND Hn1 Hr1); lia|].
@@ -271,7 +293,8 @@ Proof.
     - replace (T_ILLEGAL =? T_ILLEGAL) with true by reflexivity.
       apply okr_ret. apply post_illegal; [apply NormInv_Inv; assumption|assumption].
     - replace (T_AND =? T_ILLEGAL) with false by reflexivity.
-      apply okr_ret. apply post_tok; try assumption; try lia; try tkneq; try (destruct Hr2; congruence); try (destruct Hr3; congruence). }
+      apply okr_ret. apply post_tok; try assumption; try lia; try tkneq; try (destruct Hr2; congruence); try (destruct Hr3; congruence);
+      try (intros; left; destruct Hr2; congruence); try (intros; left; destruct Hr3; congruence). }
   (* all other characters *)
   eapply okr_bind; [apply (scan_symbol_spec (ch l) l0 l1 Hn1 Hr1)|].
   intros ((t, v), l2) (Hn2 & Hr2 & Ho2 & Hne & Hd1 & Hd2).
@@ -299,6 +322,7 @@ Proof.
     rewrite adv_plain by (rewrite (Hd1 (or_intror Ht)); unfold plain; lia).
     rewrite col_add_add. split; [reflexivity|lia].
   - destruct Hr2; congruence.
+  - intros; left; destruct Hr2; congruence.
 Qed.
 
 (* ---- Scan(): scan() + lastTok ------------------------------------------------------------ *)
@@ -319,7 +343,8 @@ Definition regex_pre (l0 : lexer) (back : Z) : Prop :=
 
 Definition regex_post (l0 : lexer) (r : token * lexer) : Prop :=
   Inv (snd r) /\ tbad (fst r) = xl l0 /\ tok_ok (fst r) /\
-  (is_final (fst r) = false -> NormInv (snd r) /\ offset l0 < offset (snd r)).
+  (is_final (fst r) = false -> NormInv (snd r) /\ offset l0 < offset (snd r)) /\
+  xl (snd r) = xl l0.
 
 Lemma scan_regex_spec fuel l0 :
   NormInv l0 ->
@@ -336,7 +361,7 @@ Proof.
   eapply okr_bind; [apply (regex_loop_spec src fuel _ l0 l0 (NormInv_Inv _ _ Hn) (Rel_refl l0)); exact Hf|].
   intros [msg l|chars l] (Hi & Hr & Hc); cbn [rx_state] in *.
   - apply okr_ret. destruct (post_illegal l0 l msg Hi Hr) as (H1 & H2 & H3 & H4 & _).
-    unfold regex_post. splits; assumption.
+    unfold regex_post. splits; try assumption. cbn [snd tok_at]. destruct Hr; assumption.
   - assert (Hnz : ch l <> 0) by lia.
     pose proof (Inv_nonzero_NormInv src l Hi Hnz) as Hnl. pose proof Hr as (Hx & Hle).
     eapply okr_bind; [apply (nextN src l0 l Hnl Hr Hnz)|].
@@ -352,6 +377,7 @@ Proof.
       * intros _. rewrite Epos. replace (offset l0 - 1 - back) with s by lia. split; [reflexivity|lia].
       * intros H; vm_compute in H; discriminate H.
     + intros _. split; [exact Hn'|lia].
+    + destruct Hr'; assumption.
 Qed.
 
 Lemma ScanRegex_spec fuel l0 :
@@ -373,6 +399,19 @@ Definition ends_final (os : list obs) : Prop :=
 Definition first_bad (os : list obs) (v : bool) : Prop :=
   match os with o :: _ => tbad (otok o) = v | [] => False end.
 
+(* every token flagged bad comes after a token that is a cause (S: the flag was already set) *)
+Fixpoint explained (S : Prop) (os : list obs) : Prop :=
+  match os with
+  | [] => True
+  | o :: rest => (tbad (otok o) = true -> S) /\ explained (S \/ cause (otok o)) rest
+  end.
+
+Lemma explained_weaken os : forall (A B : Prop), (A -> B) -> explained A os -> explained B os.
+Proof.
+  induction os as [|o rest IH]; intros A B HAB; cbn [explained]; [auto|].
+  intros (H1 & H2). split; [auto|]. apply (IH (A \/ cause (otok o))); [tauto|exact H2].
+Qed.
+
 Lemma lex_fuel_enough l : NormInv l -> len + 2 - offset l <= Z.of_nat (lex_fuel src).
 Proof.
   intros Hn. pose proof (NormInv_bounds _ Hn). unfold lex_fuel, zlen. lia.
@@ -380,19 +419,21 @@ Qed.
 
 Lemma scan_loop_spec :
   forall fuel ds l, NormInv l -> len + 2 - offset l <= Z.of_nat fuel ->
-  okr (fun os => all_ok os /\ ends_final os /\ first_bad os (xl l))
+  okr (fun os => all_ok os /\ ends_final os /\ first_bad os (xl l) /\ explained (xl l = true) os)
       (scan_loop src (lex_fuel src) fuel ds l).
 Proof.
   induction fuel as [|f IH]; intros ds l Hn Hf.
   - exfalso. pose proof (NormInv_bounds _ Hn). lia.
   - cbn [scan_loop].
     eapply okr_bind; [apply (Scan_spec _ l Hn (lex_fuel_enough l Hn))|].
-    intros (t, l1) ((Hi1 & Hbad & Hok & Hnf & Hdiv & Hdiva & Hmono) & Hlast). cbn [fst snd] in *.
+    intros (t, l1) ((Hi1 & Hbad & Hok & Hnf & Hdiv & Hdiva & Hmono & Hexpl) & Hlast). cbn [fst snd] in *.
+    assert (Hhead : tbad t = true -> xl l = true) by (intros; congruence).
     destruct (is_final t) eqn:Efin.
     { apply okr_ret. splits.
       - constructor; [exact Hok|constructor].
       - exists [], (observe t l1). splits; [reflexivity|exact Efin|constructor].
-      - exact Hbad. }
+      - exact Hbad.
+      - cbn [explained observe otok]. split; [exact Hhead|exact I]. }
     destruct (Hnf eq_refl) as (Hn1 & Ho1).
     set (want := match ds with d :: _ => is_div t && d | [] => false end).
     destruct want eqn:Ewant.
@@ -412,26 +453,33 @@ Proof.
           destruct (Hstart H1) as (Hp & Hs); [rewrite Ek; tkneq|].
           exists (tstart t). splits; [assumption|congruence|lia]. }
       eapply okr_bind; [apply (ScanRegex_spec _ l1 Hn1 Hpre (lex_fuel_enough l1 Hn1))|].
-      intros (r, l2) (Hi2 & Hbad2 & Hok2 & Hnf2). cbn [fst snd] in *.
+      intros (r, l2) (Hi2 & Hbad2 & Hok2 & Hnf2 & Hx2). cbn [fst snd] in *.
+      assert (Hhead2 : tbad r = true -> (xl l = true \/ cause t)) by (intros; apply Hexpl; congruence).
       destruct (is_final r) eqn:Efin2.
       { apply okr_ret. splits.
         - constructor; [exact Hok|constructor; [exact Hok2|constructor]].
         - exists [observe t l1], (observe r l2). splits; [reflexivity|exact Efin2|].
           constructor; [exact Efin|constructor].
-        - exact Hbad. }
+        - exact Hbad.
+        - cbn [explained observe otok]. splits; [exact Hhead|exact Hhead2|exact I]. }
       destruct (Hnf2 eq_refl) as (Hn2 & Ho2).
       eapply okr_bind; [apply (IH _ l2 Hn2); lia|].
-      intros rest (Hall & (pre & o & -> & Hfo & Hpre') & _). apply okr_ret. splits.
+      intros rest (Hall & (pre & o & -> & Hfo & Hpre') & _ & Hex). apply okr_ret. splits.
       * constructor; [exact Hok|constructor; [exact Hok2|exact Hall]].
       * exists (observe t l1 :: observe r l2 :: pre), o. splits; [reflexivity|exact Hfo|].
         constructor; [exact Efin|constructor; [exact Efin2|exact Hpre']].
       * exact Hbad.
+      * cbn [explained observe otok app]. splits; [exact Hhead|exact Hhead2|].
+        apply (explained_weaken _ (xl l2 = true)); [|exact Hex].
+        intros Hx2t. left. apply Hexpl. congruence.
     + eapply okr_bind; [apply (IH _ l1 Hn1); lia|].
-      intros rest (Hall & (pre & o & -> & Hfo & Hpre') & _). apply okr_ret. splits.
+      intros rest (Hall & (pre & o & -> & Hfo & Hpre') & _ & Hex). apply okr_ret. splits.
       * constructor; [exact Hok|exact Hall].
       * exists (observe t l1 :: pre), o. splits; [reflexivity|exact Hfo|].
         constructor; [exact Efin|exact Hpre'].
       * exact Hbad.
+      * cbn [explained observe otok app]. split; [exact Hhead|].
+        apply (explained_weaken _ (xl l1 = true)); [exact Hexpl|exact Hex].
 Qed.
 
 End Tokens.
